@@ -55,6 +55,10 @@ def oracle(cases, impl):
             if out != want:
                 fails.append(dict(name="plset-" + cid, case=dict(pairs=c[2], impl=out, single_store=want),
                                   what="pipelined SETs merged into PLSET: replies or stored values differ from the single-store result, or a key is stored outside its partition"))
+        elif kind == "L":
+            if out.startswith("sdk-mismatch"):
+                fails.append(dict(name="life-" + cid, case=dict(events=c[1], impl=out),
+                                  what="after a namespace lifecycle history a key is served by a partition other than the one the client computes from the newest configured partition count: " + out))
         elif kind == "R":
             if out not in ("ok", "rejected"):
                 fails.append(dict(name="route-" + cid, case=dict(key=c[3], impl=out),
@@ -79,7 +83,7 @@ def run_impl(ctx, seed, n, nmerge, sub):
     if ctx.replay and sub == "replay":
         cmd = "%s -replay %s -out %s -port %d" % (os.path.join(vlib.BIN, "part"), ctx.replay_cases, d, port)
     else:
-        cmd = "%s -seed %d -n %d -nmerge %d -out %s -port %d" % (os.path.join(vlib.BIN, "part"), seed, n, nmerge, d, port)
+        cmd = "%s -seed %d -n %d -nmerge %d -nlife %d -out %s -port %d" % (os.path.join(vlib.BIN, "part"), seed, n, nmerge, max(3, nmerge // 30), d, port)
     rc, out, dt = sh(cmd, cwd=d, timeout=1200)
     if rc == 3:
         # one retry: cluster start is time-dependent
@@ -99,7 +103,7 @@ def run(ctx):
         log("BUILD FAILED (harness part):\n" + out[-3000:])
         raise SystemExit(2)
     vlib.regen_consts("Part", "part")
-    proofs_ok, info = ctx.check_proofs(make_targets=["Part/Proofs.vo", "Properties/C15.vo"], gate_paths=["Part", "Common", "Properties/C15"])
+    proofs_ok, info = ctx.check_proofs(make_targets=["Part/Proofs.vo", "Part/NsMetaProofs.vo", "Properties/C15.vo"], gate_paths=["Part", "Common", "Properties/C15"])
     mok, mout, _ = vlib.model_build("Part")
     if not mok:
         log("MODEL BUILD FAILED:\n" + mout[-3000:])
@@ -143,7 +147,7 @@ def run(ctx):
             hist_all[k] = hist_all.get(k, 0) + v
         for cid, c in cases.items():
             # non-trivial: non-empty key and pnum > 1 for hashes, key list with >= 2 keys for merges
-            if (c[0] == "H" and c[1] != "-" and c[2] not in ("0", "1")) or (c[0] in ("G", "D", "P") and "," in c[-1]) or c[0] in ("X", "R"):
+            if (c[0] == "H" and c[1] != "-" and c[2] not in ("0", "1")) or (c[0] in ("G", "D", "P") and "," in c[-1]) or c[0] in ("X", "R", "L"):
                 distinct.add(vlib.case_hash("\t".join(c)))
         ids = list(cases.keys())
         for cid in ids[:2] + ids[-2:]:
@@ -173,7 +177,7 @@ def run(ctx):
         rule="cases from one seeded PRNG: H = (key, partition count) with keys of length 0..40 incl. all tail lengths and high bytes, "
              "counts 1..1024 (4 keys exhaustively over all counts); X = raw keys for namespace extraction (valid and malformed); "
              "G/D = merged DEL/EXISTS on a live 4-partition in-process server with duplicate-laden key lists; P = pipelined SETs merged into PLSET across partitions; "
-             "R = SET routed to a namespace whose partition 3 is not hosted (must be rejected, never executed elsewhere). "
+             "L = namespace lifecycle histories (partitions initialised/destroyed, namespace re-created with another partition count) with routing probed after every event; R = SET routed to a namespace whose partition 3 is not hosted (must be rejected, never executed elsewhere). "
              "Non-trivial = non-empty key with count > 1, any X, or a merge with >= 2 keys; distinct by hash of the case.",
         histogram=hist_all,
         mismatches=len(all_mism),
